@@ -943,16 +943,21 @@ pub fn oracle_c06_c07(w: &World, so: &StepObs, out: &mut StepOut, do6: bool, do7
                 let rem = pp.margin.u128() as i128 + pnl_of(pp, p0.out_spot) - owed;
                 // the partial path is taken when |ratio| > liquidation fee and the partial ratio is non-zero
                 let partial_path = cfg.plr != 0 && r.abs() > cfg.liq_fee as i128;
-                let partial_penalty = if partial_path {
+                let partial_out = if partial_path {
                     let ps = pp.size.value.u128() * cfg.plr / D;
-                    w.out_amount(*v, pp.direction.clone(), ps).map(|o| (o * cfg.liq_fee / D) as i128).unwrap_or(0)
+                    w.out_amount(*v, pp.direction.clone(), ps).unwrap_or(0)
                 } else {
                     0
                 };
+                let partial_penalty = (partial_out * cfg.liq_fee / D) as i128;
+                // partial_liquidation() switches to a quote-denominated swap when the slice is worth more
+                // than the whole open notional
+                let swap_input_branch = partial_path && partial_out > pp.notional.u128();
                 let spot_pnl = pnl_of(pp, p0.out_spot);
                 let refine = match cls.as_str() {
                     "overflow-sub" if cfg.plr != 0 && r < 0 => "partial-path-negative-ratio",
-                    "overflow-sub" if partial_path && spot_pnl.abs() * cfg.plr as i128 / DI > pp.margin.u128() as i128 => "partial-path-spot-pnl-share-exceeds-margin",
+                    "overflow-sub" if swap_input_branch => "partial-path-slice-worth-more-than-open-notional",
+                    "overflow-sub" if partial_path && spot_pnl.abs() * cfg.plr as i128 / DI + partial_penalty > pp.margin.u128() as i128 => "partial-path-spot-pnl-share-plus-penalty-exceeds-margin",
                     "response-parse" if cfg.real_feed => "real-price-feed",
                     "transfer-failure" if partial_path && vault < partial_penalty => "partial-path-vault-below-penalty",
                     "transfer-failure" if !partial_path && vault < rem => "vault-below-remaining-margin",
